@@ -785,6 +785,14 @@ class Evaluator:
             if isinstance(base, (list, Vec, dict)):
                 self._concrete_store(base, self.ev(target.slice), op, value, stmt)
                 return
+            if isinstance(base, Mat) and op == "=":
+                idx = self.ev(target.slice)
+                if isinstance(idx, int) and 0 <= idx < len(base.rows):
+                    vals = value.vals if isinstance(value, Vec) else value
+                    if isinstance(vals, list) and len(vals) == len(base.rows[idx]):
+                        base.rows[idx][:] = list(vals)
+                        return
+                raise Unsupported("matrix row store", stmt)
         # alias resolution: a name bound to a Sym is a *view* of the symbol (cost_elem1_elem2 = matrix[e1][e2])
         key = self._alias_key(target)
         self.effects.append(Effect(key, op, value, stmt))
@@ -895,6 +903,8 @@ class Evaluator:
                 it = list(it)
             elif isinstance(it, Vec):
                 it = list(it.vals)
+            elif isinstance(it, Mat):
+                it = list(it.rows)
             if not isinstance(it, (list, tuple)):
                 raise Unsupported("loop over abstract iterable", st)
             it = list(it)
